@@ -207,7 +207,7 @@ def match(exp, obs, step):
 def design_equal(st, obs):
     """diagnostic only: does Tier 2 predict the code's answer?  None = not predicted"""
     des = (st.get("exp") or {}).get("design")
-    if not des or des.get("r") == "skip":
+    if not des or des.get("r") == "skip" or (st["a"] == "rtext" and st["arg"]["dst"] in FLOATS):     # no model of strtod / "%a"
         return None
     if des["r"] != obs.get("r"):
         return False
@@ -572,20 +572,21 @@ def gen_range_cases(rng, cfg):
 # TLC judges the recorded events
 # --------------------------------------------------------------------------
 def validate_events(events, nchunks, tag):
+    """TLC judges every event; returns (rejected event indices, matched count, transitions).  Events are dealt out
+    round-robin so that the expensive ones (long-double prints with huge exponents) are spread over the TLC processes."""
     if not events:
         return [], 0, 0
-    nchunks = max(1, min(nchunks, len(events) // 400 + 1))
-    size = min((len(events) + nchunks - 1) // nchunks, 30000)
-    spans = [(i, events[i:i + size]) for i in range(0, len(events), size)]
+    nchunks = max(1, min(nchunks, len(events) // 400 + 1), (len(events) + 29999) // 30000)
+    spans = [(k, events[k::nchunks]) for k in range(nchunks)]
 
     def one(sp):
-        off, evs = sp
-        ok, matched, res = vlib.validate_trace("Trace_NumText", evs, tag="%s-%d" % (tag, off), xss="1g", timeout=1400, extra_env=JVM_SMALL)
-        rej = [int(x) - 1 + off for x in re.findall(r'<<"REJECT", (\d+)>>', res.out)]
+        k, evs = sp
+        ok, matched, res = vlib.validate_trace("Trace_NumText", evs, tag="%s-%d" % (tag, k), xss="1g", timeout=1400, extra_env=JVM_SMALL)
+        rej = [k + (int(x) - 1) * nchunks for x in re.findall(r'<<"REJECT", (\d+)>>', res.out)]
         if matched != len(evs):
             raise vlib.MachineryError("trace validation stopped at event %d of %d:\n%s" % (matched, len(evs), res.out[-2000:]))
         return rej, matched, res.generated
-    with ThreadPoolExecutor(max_workers=nchunks) as ex:
+    with ThreadPoolExecutor(max_workers=min(nchunks, 12)) as ex:
         out = list(ex.map(one, spans))
     return sorted(r for o in out for r in o[0]), sum(o[1] for o in out), sum(o[2] for o in out)
 
@@ -647,10 +648,11 @@ def run_part(ck, tier):
     pool = ThreadPoolExecutor(max_workers=4)
 
     # 1. model level (scaled types) and case export (real widths), side by side
-    f_mc = pool.submit(vlib.tlc, "MC_NumText", cfg["mc"], 6, xss="256m", tag="MC_NumText", env=JVM_MID)
     f_gen = pool.submit(vlib.tlc_to_file, "Gen_NumText", cfg["gen"], os.path.join(vlib.ensure(os.path.join(vlib.WORK, "X07")),
                                                                                    "gen-%d.out" % os.getpid()), 6, 1400, "8g",
                         dict(JVM_MID, JAVA_TOOL_OPTIONS=JVM_MID["JAVA_TOOL_OPTIONS"] + " -Xss256m"))
+
+    f_mc = pool.submit(vlib.tlc, "MC_NumText", cfg["mc"], 4 if tier == "quick" else 8, xss="256m", tag="MC_NumText", env=JVM_MID)
 
     # 2. binding B inputs, executed while TLC runs
     rng = ck.rng
